@@ -216,7 +216,7 @@ type Ref = fn(f64) -> u64;
 fn p32b(v: f64) -> u64 { P32E2::from_f64(v).to_bits() as u64 }
 
 /// (op, spelling, implementation, f64 route)
-const UNARY32: [(&str, &str, Imp, Ref); 17] = [
+const UNARY32: [(&str, &str, Imp, Ref); 19] = [
     ("to_f32", "m", |p| p.to_f32().to_bits() as u64, |v| (v as f32).to_bits() as u64),
     ("to_f64", "m", |p| p.to_f64().to_bits(), |v| v.to_bits()),
     ("to_i32", "m", |p| p.to_i32() as u32 as u64, |v| (v.round_ties_even() as i32) as u32 as u64),
@@ -234,6 +234,9 @@ const UNARY32: [(&str, &str, Imp, Ref); 17] = [
     ("recip", "m", |p| num_traits::Float::recip(p).to_bits() as u64, |v| p32b(1.0 / v)),
     ("abs", "m", |p| p.abs().to_bits() as u64, |v| p32b(v.abs())),
     ("neg", "m", |p| P32E2::neg(p).to_bits() as u64, |v| p32b(-v)),
+    // round trips: the route is the pattern itself (recovered from the exact value)
+    ("f64_roundtrip", "m", |p| P32E2::from(f64::from(p)).to_bits() as u64, |v| p32b(v)),
+    ("str_roundtrip", "m", |p| match format!("{}", p).parse::<P32E2>() { Ok(q) => q.to_bits() as u64, Err(_) => u64::MAX - 5 }, |v| p32b(v)),
 ];
 
 /// Run `differs(i)` for i = off, off + stride, ... < limit on all cores; returns the (sorted, capped) inputs selected.
